@@ -3,6 +3,8 @@ package run
 import (
 	"bytes"
 	"fmt"
+	"math"
+	"strconv"
 
 	"verifharness/enc/bjson"
 	"verifharness/hist"
@@ -137,9 +139,47 @@ func CompareValue(cp string, typ byte, e *hist.Value, data []byte) *Diff {
 		return nil
 	}
 	if !bytes.Equal(data, e.Text) {
+		if (typ == 4 || typ == 5) && SameFloat(data, e.Text, typ == 4) {
+			return nil
+		}
 		return &Diff{cp + ".Data", fmt.Sprintf("data:%d", typ), fmt.Sprintf("got %q want %q", trunc(data), trunc(e.Text))}
 	}
 	return nil
+}
+
+// SameFloat: FLOAT (type 4) and DOUBLE (type 5) values are specified as "plain
+// exponent-free decimal text that parses back to the identical IEEE value", not
+// as one particular text: 1.5 and 1.50 are the same delivery.
+func SameFloat(got, want []byte, single bool) bool {
+	if len(got) == 0 || len(got) > 400 {
+		return false
+	}
+	digits := 0
+	for i, c := range got {
+		switch {
+		case c >= '0' && c <= '9':
+			digits++
+		case c == '-' && i == 0, c == '.':
+		default:
+			return false
+		}
+	}
+	if digits == 0 || bytes.Count(got, []byte(".")) > 1 {
+		return false
+	}
+	bits := 64
+	if single {
+		bits = 32
+	}
+	g, err1 := strconv.ParseFloat(string(got), bits)
+	w, err2 := strconv.ParseFloat(string(want), bits)
+	if err1 != nil || err2 != nil {
+		return false
+	}
+	if single {
+		return math.Float32bits(float32(g)) == math.Float32bits(float32(w))
+	}
+	return math.Float64bits(g) == math.Float64bits(w)
 }
 
 func trunc(b []byte) []byte {
